@@ -6,7 +6,11 @@ import (
 	"errors"
 	"fmt"
 	"math/rand"
+	"strings"
 	"time"
+
+	"github.com/ipld/go-ipld-prime"
+	"github.com/ipni/go-libipni/ingest/schema"
 
 	"github.com/ipfs/go-cid"
 	cidlink "github.com/ipld/go-ipld-prime/linking/cid"
@@ -83,6 +87,113 @@ func c02Mutate(r *rand.Rand, kind string, orig []byte, other []byte) []byte {
 var errNoNotification = errors.New("no SyncFinished notification within 60 s of the announcement")
 
 func runC02(c *vf.Ctx) {
+	c02BigBlocks(c)
+	c02Corrupt(c)
+}
+
+// blocks whose encoded size is exactly a power of two (or one byte off): typical values of size caps
+func c02BigBlocks(c *vf.Ctx) {
+	const sub = "big-blocks"
+	if !c.Active(sub) {
+		return
+	}
+	id := Keys()["ed25519"][3]
+	idx := 0
+	for _, base := range []int{1 << 16, 1 << 20, 1 << 21, 1 << 22, 1 << 23} {
+		for _, off := range []int{-1, 0, 1} {
+			for _, kind := range []string{"append", "oversized", "truncate"} {
+				i := idx
+				idx++
+				if !c.Mine(sub, i) {
+					continue
+				}
+				target := base + off
+				r := c.Rand(sub, i)
+				c.Cur(sub, i, fmt.Sprintf("block of %d bytes, %s", target, kind))
+				pub := NewStore()
+				// tail advertisement padded to the exact size
+				mk := func(pad int) (cid.Cid, int) {
+					ad := schema.Advertisement{Provider: id.ID.String(), Addresses: []string{strings.Repeat("a", pad)}, Entries: schema.NoEntries, ContextID: []byte("ctx"), Metadata: []byte("md"), Signature: []byte("sig")}
+					nd, _ := ad.ToNode()
+					l, err := pub.Lsys.Store(ipld.LinkContext{}, linkProto(multihash.SHA2_256, -1), nd)
+					if err != nil {
+						return cid.Undef, 0
+					}
+					raw, _ := pub.Raw(l.(cidlink.Link).Cid)
+					return l.(cidlink.Link).Cid, len(raw)
+				}
+				_, s0 := mk(0)
+				big, sz := mk(target - s0)
+				if sz != target {
+					c.Fail(sub, i, "harness-block-size", fmt.Sprintf("%d != %d", sz, target), nil)
+					continue
+				}
+				ch := &Chain{Proto: linkProto(multihash.SHA2_256, -1), Cids: []cid.Cid{big}}
+				if err := ExtendChain(r, pub, ch, 1, id.ID); err != nil {
+					c.Fail(sub, i, "harness-chain", err.Error(), nil)
+					continue
+				}
+				front, err := NewFront(c, id, pub, MountPlain, "")
+				if err != nil {
+					c.Fail(sub, i, "harness-front", err.Error(), nil)
+					continue
+				}
+				front.Pub.SetRoot(ch.Head())
+				hit := 0
+				front.Plan = func(ev ReqEvent) *Fault {
+					if ev.Rsrc != big.String() {
+						return nil
+					}
+					return &Fault{Label: kind, Mutate: func(orig []byte) []byte {
+						hit++
+						return c02Mutate(rand.New(rand.NewSource(int64(i))), kind, orig, nil)
+					}}
+				}
+				dst := NewStore()
+				hl := &hookLog{}
+				s, err := newSubscriber(dst, dagsync.BlockHook(adPrevHook(dst, hl)), dagsync.HttpTimeout(60*time.Second))
+				if err != nil {
+					front.Close()
+					continue
+				}
+				wit := func() any {
+					return map[string]any{"block_size": target, "corruption": kind, "hooks": idxList(ch, hl.list())}
+				}
+				c.Guard(sub, i, wit, func() {
+					_, err := s.SyncAdChain(context.Background(), front.AddrInfo())
+					n, bad := dst.Audit()
+					c.Add("audited_store_entries", int64(n))
+					if len(bad) > 0 {
+						c.Fail(sub, i, "store-holds-block-not-matching-its-cid:"+kind, fmt.Sprintf("block of %d bytes: %v", target, bad), wit())
+					}
+					if hit > 0 && err == nil {
+						c.Fail(sub, i, "corrupted-sync-succeeded:"+kind, fmt.Sprintf("block of %d bytes", target), wit())
+					}
+					for _, h := range hl.list() {
+						if h.Equals(big) {
+							c.Fail(sub, i, "corrupted-block-reported:"+kind, "", wit())
+						}
+					}
+					// and the intact block of that size syncs
+					front.Plan = nil
+					if _, err := s.SyncAdChain(context.Background(), front.AddrInfo()); err != nil {
+						c.Fail(sub, i, "honest-sync-failed", fmt.Sprintf("block of %d bytes: %v", target, err), wit())
+					}
+					if raw, ok := dst.Raw(big); !ok || len(raw) != target {
+						c.Fail(sub, i, "store-differs-from-fault-free-run", fmt.Sprintf("block of %d bytes", target), wit())
+					}
+				})
+				s.Close()
+				front.Close()
+				c.Eval(2)
+				c.Inc("big_block_cases")
+				c.Distinct(sub, fmt.Sprint(target), kind)
+			}
+		}
+	}
+}
+
+func c02Corrupt(c *vf.Ctx) {
 	const sub = "corrupt-sync"
 	if !c.Active(sub) {
 		return
